@@ -17,6 +17,18 @@ type C09Case struct {
 	Doc2 map[string]any   `json:"doc2,omitempty"`
 	Sel  *selref.Selector `json:"sel,omitempty"` // grammar-derived selector (judged against the reference)
 	Raw  string           `json:"raw,omitempty"` // arbitrary / mutated selector text (totality + read-only only)
+	// Long > 0: both documents get a key `long` holding an array of Long (resp. Long+3) small objects, built at check
+	// time: indexes, ranges and mapped steps far into a long array mean what they mean at its beginning
+	Long int `json:"long,omitempty"`
+}
+
+// longArray is the array behind key `long`: element i is {n: i, s: "v<i mod 7>", in: [i, -i]}.
+func longArray(n int) []any {
+	out := make([]any, n)
+	for i := range out {
+		out[i] = map[string]any{"n": float64(i), "s": fmt.Sprintf("v%d", i%7), "in": []any{float64(i), float64(-i)}}
+	}
+	return out
 }
 
 func init() {
@@ -36,7 +48,7 @@ func init() {
 			"(m:n) with begin/end, pipes with |string |number, quoted keys, :: continuation, mix=> distinct=> and harness-registered fn=>), with " +
 			"~15% deliberately invalid steps (index == len or beyond, range end > len or begin > end, index/each/key/pipe on a value of the wrong " +
 			"shape, |number on non-numeric text, unknown function or pipe type); oracle = independent reference evaluator of the documented " +
-			"meaning: valid -> deep-equal value, invalid -> an error (not a panic, not a value). A cube mode selects from regular 3-d / 4-d arrays with 2..depth index / each dimensions, half under keep=>. Generator B (1/3): arbitrary strings over the " +
+			"meaning: valid -> deep-equal value, invalid -> an error (not a panic, not a value). A long-array mode (about 4% of the cases) adds an array of 200-640 small objects at check time and selects indexes, ranges, mapped keys, pipes and brackets around positions 127-257 and the end. A cube mode selects from regular 3-d / 4-d arrays with 2..depth index / each dimensions, half under keep=>. Generator B (1/3): arbitrary strings over the " +
 			"selector alphabet, token-level mutations of A, and well-formed multi-dimensional brackets mixing each / index / i:j / (m:n) / begin / " +
 			"end over arrays of arrays (value undocumented): the call returns (no panic). Always: the document is unchanged, the selector is " +
 			"evaluated on doc, a second document of a different shape, then doc again (cache miss, then hits) with identical outcomes. " +
@@ -489,7 +501,36 @@ func genMultiDimRaw(t *rapid.T, doc map[string]any) string {
 
 func genC09(t *rapid.T) any {
 	c := &C09Case{Doc: genSelDoc(t, "doc"), Doc2: genSelDoc(t, "doc2")}
-	switch rapid.IntRange(0, 7).Draw(t, "mode") {
+	switch rapid.IntRange(0, 8).Draw(t, "mode") {
+	case 8:
+		// long-array mode (only a part of these cases: rapid would otherwise spend its budget here)
+		if rapid.IntRange(0, 2).Draw(t, "long.take") != 0 {
+			break
+		}
+		n := rapid.SampledFrom([]int{200, 255, 256, 257, 300, 512, 513, 640}).Draw(t, "long.n")
+		c.Long = n
+		near := func(l string) int {
+			return rapid.SampledFrom([]int{0, 1, 127, 128, 254, 255, 256, 257, n / 2, n - 2, n - 1, n, n + 1}).Draw(t, l)
+		}
+		steps := []selref.Step{{K: "key", Key: "long"}}
+		switch rapid.IntRange(0, 6).Draw(t, "long.form") {
+		case 0:
+			steps = append(steps, selref.Step{K: "idx", Dims: []selref.Dim{{K: "i", I: near("long.i")}}})
+		case 1:
+			steps = append(steps, selref.Step{K: "idx", Dims: []selref.Dim{{K: "range", From: near("long.from"), To: near("long.to")}}})
+		case 2:
+			steps = append(steps, selref.Step{K: "key", Key: rapid.SampledFrom([]string{"n", "s", "in", "nokey"}).Draw(t, "long.key")})
+		case 3:
+			steps = append(steps, selref.Step{K: "idx", Dims: []selref.Dim{{K: "each"}}, Keep: rapid.Bool().Draw(t, "long.keep")}, selref.Step{K: "key", Key: "in"})
+		case 4:
+			steps = append(steps, selref.Step{K: "pipe", Pipes: []selref.Pipe{{Key: "n", Type: "string"}, {Key: "s"}}})
+		case 5:
+			steps = append(steps, selref.Step{K: "idx", Dims: []selref.Dim{{K: "range", From: near("long.from"), To: -1}}}, selref.Step{K: "key", Key: "n"})
+		default:
+			steps = append(steps, selref.Step{K: "key", Key: "in"}, selref.Step{K: "idx", Dims: []selref.Dim{{K: "each"}, {K: "i", I: rapid.IntRange(0, 2).Draw(t, "long.ini")}}})
+		}
+		c.Sel = &selref.Selector{Parts: []selref.Part{{Steps: steps}}}
+		return c
 	case 7:
 		// cube-focused: a regular 3- or 4-dimensional array and one bracket of 2..depth dimensions, each
 		// an index or `each`, half of the time under keep=> (the selected structure stays as it is)
@@ -614,7 +655,7 @@ func (o selOutcome) String() string {
 	case o.err != "":
 		return "error: " + o.err
 	}
-	return "value " + val.JSON(o.v)
+	return "value " + truncate(val.JSON(o.v), 1500)
 }
 
 func sameOutcome(a, b selOutcome) bool {
@@ -638,6 +679,19 @@ func runSel(doc map[string]any, s string) (selOutcome, string) {
 }
 
 func checkC09(c *C09Case) Result {
+	if c.Long > 0 {
+		cc := *c
+		cc.Long = 0
+		cc.Doc = val.CopyMap(c.Doc)
+		cc.Doc["long"] = longArray(c.Long)
+		if c.Doc2 != nil {
+			cc.Doc2 = val.CopyMap(c.Doc2)
+			cc.Doc2["long"] = longArray(c.Long + 3)
+		}
+		res := checkC09(&cc)
+		res.Labels = append(res.Labels, "long-array")
+		return res
+	}
 	res := Result{}
 	text := c.Raw
 	if c.Sel != nil {
@@ -660,7 +714,7 @@ func checkC09(c *C09Case) Result {
 	}
 	for _, o := range []selOutcome{o1, o2, o3} {
 		if o.panic != "" {
-			res.Violation = fmt.Sprintf("selector %q on %s\n  %s", text, val.JSON(c.Doc), o)
+			res.Violation = fmt.Sprintf("selector %q on %s\n  %s", text, truncate(val.JSON(c.Doc), 1500), o)
 			return res
 		}
 	}
@@ -725,7 +779,7 @@ func checkC09(c *C09Case) Result {
 		switch e := err.(type) {
 		case nil:
 			if got.err != "" || !val.Equal(got.v, val.Norm(want)) {
-				res.Violation = fmt.Sprintf("selector %q on %s\n  expected value %s\n  got %s", text, val.JSON(d), val.JSON(want), got)
+				res.Violation = fmt.Sprintf("selector %q on %s\n  expected value %s\n  got %s", text, truncate(val.JSON(d), 1500), truncate(val.JSON(want), 1500), got)
 				return res
 			}
 			if i == 0 {
@@ -734,7 +788,7 @@ func checkC09(c *C09Case) Result {
 			}
 		case *selref.MustFail:
 			if got.err == "" {
-				res.Violation = fmt.Sprintf("selector %q on %s\n  the documented meaning prescribes an error (%s)\n  got %s", text, val.JSON(d), e.Why, got)
+				res.Violation = fmt.Sprintf("selector %q on %s\n  the documented meaning prescribes an error (%s)\n  got %s", text, truncate(val.JSON(d), 1500), e.Why, got)
 				return res
 			}
 			if i == 0 {
